@@ -7,6 +7,7 @@
 // LICENSE file in the root of the Project.
 
 #include "BlockHDF5.hpp"
+#include "h5x/H5DataType.hpp"
 
 #include <nix/util/util.hpp>
 #include <nix/Block.hpp>
@@ -309,6 +310,9 @@ shared_ptr<IDataArray> BlockHDF5::createDataArray(const std::string &name,
                                                   nix::DataType data_type,
                                                   const NDSize &shape,
                                                   const Compression &compression) {
+    // reject unsupported element types before anything is created in the file
+    data_type_to_h5_filetype(data_type);
+
     string id = util::createId();
     boost::optional<H5Group> g = data_array_group(true);
 
